@@ -4,6 +4,7 @@ CONSTANTS
   K = 4
   Budget = 2
   KeepSsz = TRUE
+  MaxOps = 8
   UseResult = TRUE
 INVARIANTS TypeOK NoOrphan Reclaimed FreeIsEmpty
 CHECK_DEADLOCK FALSE
